@@ -430,7 +430,7 @@ def run(prop, tier, seed):
     validate_runs(res, prop, path, "impl->spec", by_name)
 
     # macro level of the same property (generated crates using the real attribute macros, back-end M)
-    if prop == "C17" and os.path.exists(os.path.join(V.ROOT, "lib", "MACRO_READY")):
+    if prop in ("C17", "C15") and os.path.exists(os.path.join(V.ROOT, "lib", "MACRO_READY")):
         import check_macro
         check_macro.run_macro_level(res, prop, tier, seed)
 
